@@ -29,6 +29,23 @@ def load_prop(pid):
     return importlib.import_module("harness.props." + pid.lower())
 
 
+def raised_by_library(exc):
+    """'file:line function' when the innermost frame that belongs to either the harness or the repository under test lies in the
+    repository's package (frames of numpy / icontract / the standard library in between are skipped); None otherwise."""
+    pkg = os.path.join(os.path.realpath(env.REPO), "autoarray") + os.sep
+    hdir = os.path.join(VERIF, "harness") + os.sep
+    last = None
+    tb = exc.__traceback__
+    while tb is not None:
+        f = os.path.realpath(tb.tb_frame.f_code.co_filename)
+        if f.startswith(pkg):
+            last = ("lib", "%s:%d %s" % (f[len(pkg):], tb.tb_lineno, tb.tb_frame.f_code.co_name))
+        elif f.startswith(hdir):
+            last = ("harness", None)
+        tb = tb.tb_next
+    return last[1] if last and last[0] == "lib" else None
+
+
 def run_units(pid, tier, seed, units, only=None, raising=False):
     from harness import core
     mod = load_prop(pid)
@@ -47,7 +64,17 @@ def run_units(pid, tier, seed, units, only=None, raising=False):
         except env.Inconclusive as e:
             ctx.inconclusive.append("unit %r: %s" % (u, e))
         except Exception as e:
-            # the harness itself (or an unguarded call into the repository) crashed: never 'held'
+            where = raised_by_library(e)
+            if where is not None:
+                # An exception that left the repository's own code on an input for which the workload expects a value (expected
+                # rejections are asserted where they are expected; the unchanged tree raises nowhere else, or the check would be
+                # inconclusive there): the statement defines a value and the code under test produced none.
+                ctx.monitors["library_raised_where_a_value_is_defined"] += 1
+                ctx.fire("library_raised_where_a_value_is_defined", exception=repr(e)[:300], raised_at=where,
+                         traceback=traceback.format_exc()[-1500:])
+                ctx.notes.append("unit %r stopped at the first unexpected exception of the library; its remaining cases were not run" % (u,))
+                continue
+            # the harness itself crashed: never 'held'
             ctx.inconclusive.append("unit %r crashed: %r\n%s" % (u, e, traceback.format_exc()[-1200:]))
     if hasattr(mod, "teardown"):
         mod.teardown(ctx)
